@@ -126,6 +126,21 @@ def direct(prop, ops):
     return out
 
 
+def model_inv(prop, impl_ops, model_ops):
+    """the executable invariant `Inv` evaluated on the model state after every operation (the implementation agrees with
+    the model on the `arch` channel, so a failing conjunct is a defect of the code, not of the model)"""
+    out = []
+    taint = f8_taint_index(impl_ops)
+    for i, (op, obs) in enumerate(model_ops or []):
+        for l in obs:
+            if l.startswith("inv FAIL:"):
+                for name in l[9:].split(","):
+                    base = "inv:" + name
+                    s = ("F8:" + base) if (taint is not None and i >= taint) else base
+                    out.append(Finding(prop, i, s, f"invariant conjunct `{name}` fails after op {i} `{op}`"))
+    return out
+
+
 # ---- C17: invariants of the hook snapshot -----------------------------------------------------------------------
 
 def parse_list(s):
